@@ -8,33 +8,589 @@ open EV EV.Codec EV.Proofs.CodecPrim
 
 variable (P : Prims)
 
-theorem value_lawful : Lawful (Value.dec P) Value.enc (Value.wf P) := by sorry
-theorem asset_lawful : Lawful (Asset.dec P) Asset.enc (Asset.wf P) := by sorry
-theorem nonce_lawful : Lawful (Nonce.dec P) Nonce.enc (Nonce.wf P) := by sorry
+/-! ### helpers -/
 
-theorem value_enc_length (v : Value) (h : v.wf P) : v.enc.length = v.encodedLength := by sorry
-theorem asset_enc_length (v : Asset) (h : v.wf P) : v.enc.length = v.encodedLength := by sorry
-theorem nonce_enc_length (v : Nonce) (h : v.wf P) : v.enc.length = v.encodedLength := by sorry
+theorem take_sound' {n : Nat} {bs b r : Bytes} (h : take n bs = .ok (b, r)) :
+    bs = b ++ r ∧ b.length = n := (take_lawful n).sound _ _ _ h
+theorem take_complete' {n : Nat} (b r : Bytes) (h : b.length = n) : take n (b ++ r) = .ok (b, r) :=
+  (take_lawful n).complete b r h
+theorem take_total' (n : Nat) (bs : Bytes) (s : String) : take n bs ≠ .panic s :=
+  (take_lawful n).total _ _
 
-theorem issuance_lawful : Lawful (AssetIssuance.dec P) AssetIssuance.enc (AssetIssuance.wf P) := by sorry
-theorem outpoint_lawful : Lawful OutPoint.dec OutPoint.enc OutPoint.wf := by sorry
+/-- split the outermost `match`/`if` of a decoder equation `h`, discard the branches in which `h`
+    is an impossible constructor equation, and name the new hypotheses of the surviving branches -/
+local macro "dsplit" h:ident " with" xs:(ppSpace colGt Lean.binderIdent)* : tactic =>
+  `(tactic| (split at $h:ident <;> try (cases $h:ident; done)) <;> rename_i $xs*)
+
+/-- exhaustively split a decoder equation `h` -/
+local macro "dsplits" h:ident : tactic =>
+  `(tactic| repeat' (split at $h:ident <;> try (cases $h:ident; done)))
+
+/-! ### confidential values -/
+
+theorem value_lawful : Lawful (Value.dec P) Value.enc (Value.wf P) := by
+  refine ⟨?_, ?_, ?_⟩
+  · intro bs v rest h
+    cases bs with
+    | nil => cases h
+    | cons p t =>
+      simp only [Value.dec] at h
+      split at h
+      · rename_i hp
+        cases h
+        subst hp
+        exact ⟨rfl, trivial⟩
+      · split at h
+        · rename_i hp
+          subst hp
+          dsplit h with b r ht
+          cases h
+          obtain ⟨h1, h2⟩ := take_sound' ht
+          have h3 := beBytes_beNat b
+          have h4 := beNat_lt b
+          rw [h2] at h3 h4
+          refine ⟨?_, ?_⟩
+          · simp only [Value.enc, h3, h1, List.cons_append]
+          · simp only [Value.wf]; omega
+        · dsplit h with hp
+          dsplit h with b r ht
+          dsplit h with hc
+          obtain ⟨h1, h2⟩ := take_sound' ht
+          cases h
+          refine ⟨?_, ?_⟩
+          · simp only [Value.enc, h1, List.cons_append]
+          · refine ⟨by simp [h2], ?_, hc⟩
+            rcases hp with rfl | rfl <;> simp
+  · intro v r hv
+    cases v with
+    | null => simp [Value.dec, Value.enc]
+    | explicit n =>
+      have hn : n < 256 ^ 8 := by simp only [Value.wf] at hv; omega
+      have hc := take_complete' (beBytes 8 n) r (beBytes_length 8 n)
+      have d1 : ¬ ((1 : UInt8) = 0) := by decide
+      simp only [Value.dec, Value.enc, List.cons_append, if_neg d1, if_true, hc, beNat_beBytes 8 n hn]
+    | conf c =>
+      obtain ⟨hl, hh, hc⟩ := hv
+      cases c with
+      | nil => simp at hl
+      | cons p b =>
+        simp only [List.head?_cons, Option.some.injEq] at hh
+        have hb : b.length = 32 := by simpa using hl
+        have ht := take_complete' b r hb
+        have d0 : ¬ (p = 0) := by rcases hh with rfl | rfl <;> decide
+        have d1 : ¬ (p = 1) := by rcases hh with rfl | rfl <;> decide
+        simp only [Value.dec, Value.enc, List.cons_append, if_neg d0, if_neg d1, if_pos hh, ht, hc, if_true]
+  · intro bs s h
+    cases bs with
+    | nil => cases h
+    | cons p t =>
+      simp only [Value.dec] at h
+      dsplits h
+      all_goals exact take_total' _ _ _ ‹_›
+
+theorem asset_lawful : Lawful (Asset.dec P) Asset.enc (Asset.wf P) := by
+  refine ⟨?_, ?_, ?_⟩
+  · intro bs v rest h
+    cases bs with
+    | nil => cases h
+    | cons p t =>
+      simp only [Asset.dec] at h
+      split at h
+      · rename_i hp
+        cases h
+        subst hp
+        exact ⟨rfl, trivial⟩
+      · split at h
+        · rename_i hp
+          subst hp
+          dsplit h with b r ht
+          cases h
+          obtain ⟨h1, h2⟩ := take_sound' ht
+          refine ⟨?_, ?_⟩
+          · simp only [Asset.enc, h1, List.cons_append]
+          · simpa only [Asset.wf] using h2
+        · dsplit h with hp
+          dsplit h with b r ht
+          dsplit h with hc
+          obtain ⟨h1, h2⟩ := take_sound' ht
+          cases h
+          refine ⟨?_, ?_⟩
+          · simp only [Asset.enc, h1, List.cons_append]
+          · refine ⟨by simp [h2], ?_, hc⟩
+            rcases hp with rfl | rfl <;> simp
+  · intro v r hv
+    cases v with
+    | null => simp [Asset.dec, Asset.enc]
+    | explicit b =>
+      have hb : b.length = 32 := hv
+      have hc := take_complete' b r hb
+      have d1 : ¬ ((1 : UInt8) = 0) := by decide
+      simp only [Asset.dec, Asset.enc, List.cons_append, if_neg d1, if_true, hc]
+    | conf c =>
+      obtain ⟨hl, hh, hc⟩ := hv
+      cases c with
+      | nil => simp at hl
+      | cons p b =>
+        simp only [List.head?_cons, Option.some.injEq] at hh
+        have hb : b.length = 32 := by simpa using hl
+        have ht := take_complete' b r hb
+        have d0 : ¬ (p = 0) := by rcases hh with rfl | rfl <;> decide
+        have d1 : ¬ (p = 1) := by rcases hh with rfl | rfl <;> decide
+        simp only [Asset.dec, Asset.enc, List.cons_append, if_neg d0, if_neg d1, if_pos hh, ht, hc, if_true]
+  · intro bs s h
+    cases bs with
+    | nil => cases h
+    | cons p t =>
+      simp only [Asset.dec] at h
+      dsplits h
+      all_goals exact take_total' _ _ _ ‹_›
+
+theorem nonce_lawful : Lawful (Nonce.dec P) Nonce.enc (Nonce.wf P) := by
+  refine ⟨?_, ?_, ?_⟩
+  · intro bs v rest h
+    cases bs with
+    | nil => cases h
+    | cons p t =>
+      simp only [Nonce.dec] at h
+      split at h
+      · rename_i hp
+        cases h
+        subst hp
+        exact ⟨rfl, trivial⟩
+      · split at h
+        · rename_i hp
+          subst hp
+          dsplit h with b r ht
+          cases h
+          obtain ⟨h1, h2⟩ := take_sound' ht
+          refine ⟨?_, ?_⟩
+          · simp only [Nonce.enc, h1, List.cons_append]
+          · simpa only [Nonce.wf] using h2
+        · dsplit h with hp
+          dsplit h with b r ht
+          dsplit h with hc
+          obtain ⟨h1, h2⟩ := take_sound' ht
+          cases h
+          refine ⟨?_, ?_⟩
+          · simp only [Nonce.enc, h1, List.cons_append]
+          · refine ⟨by simp [h2], ?_, hc⟩
+            rcases hp with rfl | rfl <;> simp
+  · intro v r hv
+    cases v with
+    | null => simp [Nonce.dec, Nonce.enc]
+    | explicit b =>
+      have hb : b.length = 32 := hv
+      have hc := take_complete' b r hb
+      have d1 : ¬ ((1 : UInt8) = 0) := by decide
+      simp only [Nonce.dec, Nonce.enc, List.cons_append, if_neg d1, if_true, hc]
+    | conf c =>
+      obtain ⟨hl, hh, hc⟩ := hv
+      cases c with
+      | nil => simp at hl
+      | cons p b =>
+        simp only [List.head?_cons, Option.some.injEq] at hh
+        have hb : b.length = 32 := by simpa using hl
+        have ht := take_complete' b r hb
+        have d0 : ¬ (p = 0) := by rcases hh with rfl | rfl <;> decide
+        have d1 : ¬ (p = 1) := by rcases hh with rfl | rfl <;> decide
+        simp only [Nonce.dec, Nonce.enc, List.cons_append, if_neg d0, if_neg d1, if_pos hh, ht, hc, if_true]
+  · intro bs s h
+    cases bs with
+    | nil => cases h
+    | cons p t =>
+      simp only [Nonce.dec] at h
+      dsplits h
+      all_goals exact take_total' _ _ _ ‹_›
+
+theorem value_enc_length (v : Value) (h : v.wf P) : v.enc.length = v.encodedLength := by
+  cases v with
+  | null => rfl
+  | explicit n => simp [Value.enc, Value.encodedLength, beBytes_length]
+  | conf c => exact h.1
+theorem asset_enc_length (v : Asset) (h : v.wf P) : v.enc.length = v.encodedLength := by
+  cases v with
+  | null => rfl
+  | explicit n =>
+    have : n.length = 32 := h
+    simp [Asset.enc, Asset.encodedLength, this]
+  | conf c => exact h.1
+theorem nonce_enc_length (v : Nonce) (h : v.wf P) : v.enc.length = v.encodedLength := by
+  cases v with
+  | null => rfl
+  | explicit n =>
+    have : n.length = 32 := h
+    simp [Nonce.enc, Nonce.encodedLength, this]
+  | conf c => exact h.1
+
+/-! ### issuance, outpoint, proofs, witnesses -/
+
+theorem issuance_lawful : Lawful (AssetIssuance.dec P) AssetIssuance.enc (AssetIssuance.wf P) := by
+  refine ⟨?_, ?_, ?_⟩
+  · intro bs v rest h
+    simp only [AssetIssuance.dec] at h
+    dsplit h with n r1 h1
+    dsplit h with htw
+    dsplit h with e r2 h2
+    dsplit h with a r3 h3
+    dsplit h with k r4 h4
+    cases h
+    obtain ⟨e1, l1⟩ := take_sound' h1
+    obtain ⟨e2, l2⟩ := take_sound' h2
+    obtain ⟨e3, w3⟩ := (value_lawful P).sound _ _ _ h3
+    obtain ⟨e4, w4⟩ := (value_lawful P).sound _ _ _ h4
+    refine ⟨?_, l1, by simpa using htw, l2, w3, w4⟩
+    simp only [AssetIssuance.enc, List.append_assoc]
+    rw [e1, e2, e3, e4]
+  · intro v r ⟨l1, tw, l2, w3, w4⟩
+    have c1 := fun r => take_complete' v.nonce r l1
+    have c2 := fun r => take_complete' v.entropy r l2
+    have c3 := fun r => (value_lawful P).complete v.amount r w3
+    have c4 := fun r => (value_lawful P).complete v.inflationKeys r w4
+    simp only [AssetIssuance.dec, AssetIssuance.enc, List.append_assoc, c1, c2, c3, c4, tw]
+    simp
+  · intro bs s h
+    simp only [AssetIssuance.dec] at h
+    have t1 := take_total'
+    have t2 := (value_lawful P).total
+    dsplits h
+    all_goals (first | exact t1 _ _ _ ‹_› | exact t2 _ _ ‹_›)
+
+theorem outpoint_lawful : Lawful OutPoint.dec OutPoint.enc OutPoint.wf := by
+  refine ⟨?_, ?_, ?_⟩
+  · intro bs v rest h
+    simp only [OutPoint.dec] at h
+    dsplit h with t r1 h1
+    dsplit h with n r2 h2
+    cases h
+    obtain ⟨e1, l1⟩ := take_sound' h1
+    obtain ⟨e2, l2⟩ := (le_lawful 4).sound _ _ _ h2
+    refine ⟨?_, l1, by omega⟩
+    simp only [OutPoint.enc, List.append_assoc]
+    rw [e1, e2]
+  · intro v r ⟨l1, l2⟩
+    have c1 := fun r => take_complete' v.txid r l1
+    have c2 := fun r => (le_lawful 4).complete v.vout r (by omega)
+    simp only [OutPoint.dec, OutPoint.enc, List.append_assoc, c1, c2]
+  · intro bs s h
+    simp only [OutPoint.dec] at h
+    have t1 := take_total'
+    have t2 := (le_lawful 4).total
+    dsplits h
+    all_goals (first | exact t1 _ _ _ ‹_› | exact t2 _ _ ‹_›)
 
 theorem optProof_lawful (valid : Bytes → Bool) :
-    Lawful (decOptProof valid) encOptProof (wfOptProof valid) := by sorry
+    Lawful (decOptProof valid) encOptProof (wfOptProof valid) := by
+  refine ⟨?_, ?_, ?_⟩
+  · intro bs v rest h
+    simp only [decOptProof] at h
+    dsplit h with b r1 h1
+    obtain ⟨e1, l1⟩ := bytesVec_lawful.sound _ _ _ h1
+    split at h
+    · rename_i he
+      cases h
+      have : b = [] := by simpa using he
+      subst this
+      exact ⟨e1, trivial⟩
+    · rename_i he
+      dsplit h with hv
+      cases h
+      refine ⟨e1, ?_, hv, l1⟩
+      simpa using he
+  · intro v r hv
+    cases v with
+    | none =>
+      have c1 := bytesVec_lawful.complete [] r (by simp)
+      simp only [decOptProof, encOptProof, c1]
+      simp
+    | some b =>
+      obtain ⟨h1, h2, h3⟩ := hv
+      have c1 := bytesVec_lawful.complete b r h3
+      have he : ¬ (b.isEmpty = true) := by simpa using h1
+      simp only [decOptProof, encOptProof, c1, if_neg he, h2, if_true]
+  · intro bs s h
+    simp only [decOptProof] at h
+    dsplits h
+    exact bytesVec_lawful.total _ _ ‹_›
 
-theorem txInWitness_lawful : Lawful (TxInWitness.dec P) TxInWitness.enc (TxInWitness.wf P) := by sorry
-theorem txOutWitness_lawful : Lawful (TxOutWitness.dec P) TxOutWitness.enc (TxOutWitness.wf P) := by sorry
+theorem txInWitness_lawful : Lawful (TxInWitness.dec P) TxInWitness.enc (TxInWitness.wf P) := by
+  refine ⟨?_, ?_, ?_⟩
+  · intro bs v rest h
+    simp only [TxInWitness.dec] at h
+    dsplit h with a r1 h1
+    dsplit h with k r2 h2
+    dsplit h with s r3 h3
+    dsplit h with p r4 h4
+    cases h
+    obtain ⟨e1, w1⟩ := (optProof_lawful P.rangeproof).sound _ _ _ h1
+    obtain ⟨e2, w2⟩ := (optProof_lawful P.rangeproof).sound _ _ _ h2
+    obtain ⟨e3, w3⟩ := bytesVecVec_lawful.sound _ _ _ h3
+    obtain ⟨e4, w4⟩ := bytesVecVec_lawful.sound _ _ _ h4
+    refine ⟨?_, w1, w2, w3, w4⟩
+    simp only [TxInWitness.enc, List.append_assoc]
+    rw [e1, e2, e3, e4]
+  · intro v r ⟨w1, w2, w3, w4⟩
+    have c1 := fun r => (optProof_lawful P.rangeproof).complete v.amountRangeproof r w1
+    have c2 := fun r => (optProof_lawful P.rangeproof).complete v.inflationKeysRangeproof r w2
+    have c3 := fun r => bytesVecVec_lawful.complete v.scriptWitness r w3
+    have c4 := fun r => bytesVecVec_lawful.complete v.peginWitness r w4
+    simp only [TxInWitness.dec, TxInWitness.enc, List.append_assoc, c1, c2, c3, c4]
+  · intro bs s h
+    simp only [TxInWitness.dec] at h
+    have t1 := (optProof_lawful P.rangeproof).total
+    have t2 := bytesVecVec_lawful.total
+    dsplits h
+    all_goals (first | exact t1 _ _ ‹_› | exact t2 _ _ ‹_›)
+
+theorem txOutWitness_lawful : Lawful (TxOutWitness.dec P) TxOutWitness.enc (TxOutWitness.wf P) := by
+  refine ⟨?_, ?_, ?_⟩
+  · intro bs v rest h
+    simp only [TxOutWitness.dec] at h
+    dsplit h with a r1 h1
+    dsplit h with k r2 h2
+    cases h
+    obtain ⟨e1, w1⟩ := (optProof_lawful P.surjproof).sound _ _ _ h1
+    obtain ⟨e2, w2⟩ := (optProof_lawful P.rangeproof).sound _ _ _ h2
+    refine ⟨?_, w1, w2⟩
+    simp only [TxOutWitness.enc, List.append_assoc]
+    rw [e1, e2]
+  · intro v r ⟨w1, w2⟩
+    have c1 := fun r => (optProof_lawful P.surjproof).complete v.surjectionProof r w1
+    have c2 := fun r => (optProof_lawful P.rangeproof).complete v.rangeproof r w2
+    simp only [TxOutWitness.dec, TxOutWitness.enc, List.append_assoc, c1, c2]
+  · intro bs s h
+    simp only [TxOutWitness.dec] at h
+    have t1 := (optProof_lawful P.surjproof).total
+    have t2 := (optProof_lawful P.rangeproof).total
+    dsplits h
+    all_goals (first | exact t1 _ _ ‹_› | exact t2 _ _ ‹_›)
+
+/-! ### the `vout` word of an input -/
+theorem two_pow_30 : (2:Nat)^30 = 1073741824 := by decide
+theorem two_pow_31 : (2:Nat)^31 = 2147483648 := by decide
+theorem two_pow_32 : (2:Nat)^32 = 4294967296 := by decide
+theorem testBit_30 (w : Nat) : w.testBit 30 = decide (w / 1073741824 % 2 = 1) := by
+  rw [Nat.testBit_eq_decide_div_mod_eq]
+theorem testBit_31 (w : Nat) : w.testBit 31 = decide (w / 2147483648 % 2 = 1) := by
+  rw [Nat.testBit_eq_decide_div_mod_eq]
+
+theorem or_two_pow_of_lt (v k : Nat) (hv : v < 2^k) : v ||| 2^k = v + 2^k := by
+  have := Nat.two_pow_add_eq_or_of_lt hv 1
+  simp only [Nat.mul_one] at this
+  rw [Nat.or_comm, ← this, Nat.add_comm]
+
+theorem word_eq (v : Nat) (hv : v < 1073741824) (p q : Bool) :
+    (v ||| (if p then 1073741824 else 0)) ||| (if q then 2147483648 else 0)
+      = v + (if p then 1073741824 else 0) + (if q then 2147483648 else 0) := by
+  have h1 : v ||| (if p then 1073741824 else 0) = v + (if p then 1073741824 else 0) := by
+    cases p
+    · simp
+    · simp only [if_true]
+      have := or_two_pow_of_lt v 30 (by rw [two_pow_30]; exact hv)
+      rw [two_pow_30] at this
+      exact this
+  rw [h1]
+  cases q
+  · simp
+  · simp only [if_true]
+    have h2 : v + (if p then 1073741824 else 0) < 2147483648 := by cases p <;> simp <;> omega
+    have := or_two_pow_of_lt _ 31 (by rw [two_pow_31]; exact h2)
+    rw [two_pow_31] at this
+    exact this
+
+/-- recombination of the serialized `vout` word from its decoded parts -/
+theorem word_recombine (w : Nat) (hw : w < 2^32) :
+    (w % 2^30 ||| (if w.testBit 30 then 2^30 else 0)) ||| (if w.testBit 31 then 2^31 else 0) = w := by
+  rw [two_pow_32] at hw
+  rw [two_pow_30, two_pow_31, word_eq _ (by omega), testBit_30, testBit_31]
+  by_cases h1 : w / 1073741824 % 2 = 1 <;> by_cases h2 : w / 2147483648 % 2 = 1 <;>
+    simp only [h1, h2, decide_true, decide_false, if_true] <;> (try simp) <;> omega
+
+theorem word_parts_lit (v : Nat) (hv : v < 1073741824) (p q : Bool) (w : Nat)
+    (hw : w = v + (if p then 1073741824 else 0) + (if q then 2147483648 else 0)) :
+    w < 4294967296 ∧ w % 1073741824 = v ∧ decide (w / 1073741824 % 2 = 1) = p ∧
+    decide (w / 2147483648 % 2 = 1) = q ∧
+    (w = 4294967295 ↔ (v = 1073741823 ∧ p = true ∧ q = true)) := by
+  subst hw
+  cases p <;> cases q <;>
+    simp only [Bool.false_eq_true, if_false, if_true, decide_eq_true_eq, decide_eq_false_iff_not,
+      and_false, and_true, iff_false, Nat.add_zero] <;> omega
+
+theorem null_isNull : AssetIssuance.null.isNull = true := rfl
+
+theorem txIn_enc_of (i : TxIn) (w : Nat) (hw : i.voutWord = w) :
+    i.enc = OutPoint.enc ⟨i.previousOutput.txid, w⟩ ++ (encBytesVec i.scriptSig ++ (encLe 4 i.sequence ++
+      (if i.hasIssuance then i.assetIssuance.enc else []))) := by
+  simp only [TxIn.enc, OutPoint.enc, hw, List.append_assoc]
+
+theorem txIn_sound (bs : Bytes) (v : TxIn) (rest : Bytes) (h : TxIn.dec P bs = .ok (v, rest)) :
+    bs = v.enc ++ rest ∧ (v.wfBody P ∧ v.witness = TxInWitness.empty) := by
+  simp only [TxIn.dec] at h
+  dsplit h with outp r1 h1
+  dsplit h with ss r2 h2
+  dsplit h with sq r3 h3
+  obtain ⟨e1, l1, lw⟩ := outpoint_lawful.sound _ _ _ h1
+  obtain ⟨e2, l2⟩ := bytesVec_lawful.sound _ _ _ h2
+  obtain ⟨e3, l3⟩ := (le_lawful 4).sound _ _ _ h3
+  have l3' : sq < 2 ^ 32 := by omega
+  obtain ⟨txid, w⟩ := outp
+  simp only at l1 lw h
+  by_cases hcb : w = 0xffffffff
+  · simp only [hcb, decide_true, Bool.not_true, Bool.false_and, if_true, Bool.false_eq_true, if_false] at h
+    cases h
+    refine ⟨?_, ⟨l1, Or.inr ⟨rfl, rfl, ?_⟩, l2, l3', ?_⟩, rfl⟩
+    · rw [txIn_enc_of _ w]
+      · simp only [TxIn.hasIssuance, null_isNull, Bool.not_true, Bool.false_eq_true, if_false,
+          List.append_nil, List.append_assoc]
+        rw [e1, e2, e3]
+      · simp [TxIn.voutWord, TxIn.hasIssuance, null_isNull, hcb]
+    · simp [TxIn.hasIssuance, null_isNull]
+    · simp [TxIn.hasIssuance, null_isNull]
+  · simp only [hcb, decide_false, Bool.not_false, Bool.true_and, if_false] at h
+    have hrec := word_recombine w lw
+    have hmod : w % 2 ^ 30 < 2 ^ 30 := Nat.mod_lt _ (Nat.two_pow_pos 30)
+    split at h
+    · rename_i hi
+      dsplit h with iss r4 h4
+      dsplit h with hnull
+      cases h
+      obtain ⟨e4, w4⟩ := (issuance_lawful P).sound _ _ _ h4
+      have hI : TxIn.hasIssuance ⟨⟨txid, w % 2 ^ 30⟩, w.testBit 30, ss, sq, iss, TxInWitness.empty⟩ = true := by
+        simpa [TxIn.hasIssuance] using hnull
+      refine ⟨?_, ⟨l1, Or.inl ⟨hmod, ?_⟩, l2, l3', ?_⟩, rfl⟩
+      · rw [txIn_enc_of _ w]
+        · simp only [hI, if_true, List.append_assoc]
+          rw [e1, e2, e3, e4]
+        · simp only [TxIn.voutWord, hI, if_true]
+          rw [hi] at hrec
+          exact hrec
+      · rintro ⟨a, b, _⟩
+        simp only at a b
+        apply hcb
+        rw [← hrec, a, b, hi]
+        decide
+      · simp only [hI, if_true]; exact w4
+    · rename_i hi
+      cases h
+      have hI : TxIn.hasIssuance ⟨⟨txid, w % 2 ^ 30⟩, w.testBit 30, ss, sq, AssetIssuance.null, TxInWitness.empty⟩ = false := by
+        simp [TxIn.hasIssuance, null_isNull]
+      refine ⟨?_, ⟨l1, Or.inl ⟨hmod, ?_⟩, l2, l3', ?_⟩, rfl⟩
+      · rw [txIn_enc_of _ w]
+        · simp only [hI, Bool.false_eq_true, if_false, List.append_nil, List.append_assoc]
+          rw [e1, e2, e3]
+        · simp only [TxIn.voutWord, hI, Bool.false_eq_true, if_false]
+          simp only [hi, Bool.false_eq_true, if_false] at hrec
+          exact hrec
+      · simp [hI]
+      · simp [hI]
+
+theorem word_parts (v : Nat) (hv : v < 2^30) (p q : Bool) (w : Nat)
+    (hw : (v ||| (if p then 2^30 else 0)) ||| (if q then 2^31 else 0) = w) :
+    w < 2^32 ∧ w % 2^30 = v ∧ w.testBit 30 = p ∧ w.testBit 31 = q ∧
+    (w = 0xffffffff ↔ (v = 2^30 - 1 ∧ p = true ∧ q = true)) := by
+  rw [two_pow_30] at hv
+  rw [two_pow_30, two_pow_31, word_eq v hv p q] at hw
+  have h1 : (1073741824 - 1 : Nat) = 1073741823 := by decide
+  rw [testBit_30, testBit_31, two_pow_30, two_pow_32, h1]
+  exact word_parts_lit v hv p q w hw.symm
+
+theorem txIn_complete (i : TxIn) (r : Bytes) (h : i.wfBody P ∧ i.witness = TxInWitness.empty) :
+    TxIn.dec P (i.enc ++ r) = .ok (i, r) := by
+  obtain ⟨⟨htx, hv, hss, hsq, hiss⟩, hwit⟩ := h
+  obtain ⟨⟨txid, vout⟩, isPegin, ss, sq, iss, wit⟩ := i
+  simp only at htx hv hss hsq hwit hiss
+  subst hwit
+  have hq : TxIn.hasIssuance ⟨⟨txid, vout⟩, isPegin, ss, sq, iss, TxInWitness.empty⟩ = !iss.isNull := rfl
+  generalize hW : TxIn.voutWord ⟨⟨txid, vout⟩, isPegin, ss, sq, iss, TxInWitness.empty⟩ = W
+  have hW' := hW
+  simp only [TxIn.voutWord] at hW'
+  rw [txIn_enc_of _ W hW]
+  simp only [hq] at hv hiss hW' ⊢
+  generalize (!iss.isNull) = q at *
+  have hq' : (!iss.isNull) = q := hq
+  clear hq hW
+  have hWlt : W < 2 ^ 32 := by
+    rcases hv with ⟨hv, _⟩ | ⟨hv, hp, hq⟩
+    · exact (word_parts vout hv isPegin q W hW').1
+    · subst hv hp hq
+      simp only [Bool.false_eq_true, if_false, Nat.or_zero] at hW'
+      omega
+  have c1 := fun rr => outpoint_lawful.complete ⟨txid, W⟩ rr ⟨htx, hWlt⟩
+  have c2 := fun rr => bytesVec_lawful.complete ss rr hss
+  have c3 := fun rr => (le_lawful 4).complete sq rr (by omega)
+  simp only [TxIn.dec, List.append_assoc, c1, c2, c3]
+  rcases hv with ⟨hv, hne⟩ | ⟨hv, hp, hq⟩
+  · obtain ⟨_, hmod, hb30, hb31, hcb⟩ := word_parts vout hv isPegin q W hW'
+    have hcb' : ¬ W = 4294967295 := fun hh => hne (hcb.mp hh)
+    simp only [hcb', decide_false, Bool.not_false, Bool.true_and, if_false, hmod, hb30, hb31]
+    cases q
+    · simp only [Bool.false_eq_true, if_false] at hiss ⊢
+      subst hiss
+      rfl
+    · simp only [if_true] at hiss ⊢
+      have c4 := (issuance_lawful P).complete iss r hiss
+      have hn : iss.isNull = false := by simpa using hq'
+      simp only [c4, hn, Bool.false_eq_true, if_false]
+  · subst hv hp hq
+    simp only [Bool.false_eq_true, if_false, Nat.or_zero] at hW' hiss
+    subst hW' hiss
+    simp only [decide_true, Bool.not_true, Bool.false_and, Bool.false_eq_true, if_false, if_true,
+      List.nil_append]
+
+theorem txIn_total (bs : Bytes) (s : String) : TxIn.dec P bs ≠ .panic s := by
+  intro h
+  simp only [TxIn.dec] at h
+  have t1 := outpoint_lawful.total
+  have t2 := bytesVec_lawful.total
+  have t3 := (le_lawful 4).total
+  have t4 := (issuance_lawful P).total
+  dsplits h
+  all_goals (first | exact t1 _ _ ‹_› | exact t2 _ _ ‹_› | exact t3 _ _ ‹_› | exact t4 _ _ ‹_›)
 
 /-- `TxIn` as a stand-alone codec: the witness is not serialized, the decoder leaves it empty -/
 theorem txIn_lawful :
-    Lawful (TxIn.dec P) TxIn.enc (fun i => i.wfBody P ∧ i.witness = TxInWitness.empty) := by sorry
+    Lawful (TxIn.dec P) TxIn.enc (fun i => i.wfBody P ∧ i.witness = TxInWitness.empty) :=
+  ⟨txIn_sound P, txIn_complete P, txIn_total P⟩
 
 theorem txOut_lawful :
-    Lawful (TxOut.dec P) TxOut.enc (fun o => o.wfBody P ∧ o.witness = TxOutWitness.empty) := by sorry
+    Lawful (TxOut.dec P) TxOut.enc (fun o => o.wfBody P ∧ o.witness = TxOutWitness.empty) := by
+  refine ⟨?_, ?_, ?_⟩
+  · intro bs v rest h
+    simp only [TxOut.dec] at h
+    dsplit h with a r1 h1
+    dsplit h with k r2 h2
+    dsplit h with n r3 h3
+    dsplit h with p r4 h4
+    cases h
+    obtain ⟨e1, w1⟩ := (asset_lawful P).sound _ _ _ h1
+    obtain ⟨e2, w2⟩ := (value_lawful P).sound _ _ _ h2
+    obtain ⟨e3, w3⟩ := (nonce_lawful P).sound _ _ _ h3
+    obtain ⟨e4, w4⟩ := bytesVec_lawful.sound _ _ _ h4
+    refine ⟨?_, ⟨w1, w2, w3, w4⟩, rfl⟩
+    simp only [TxOut.enc, List.append_assoc]
+    rw [e1, e2, e3, e4]
+  · intro v r ⟨⟨w1, w2, w3, w4⟩, hw⟩
+    have c1 := fun r => (asset_lawful P).complete v.asset r w1
+    have c2 := fun r => (value_lawful P).complete v.value r w2
+    have c3 := fun r => (nonce_lawful P).complete v.nonce r w3
+    have c4 := fun r => bytesVec_lawful.complete v.scriptPubkey r w4
+    simp only [TxOut.dec, TxOut.enc, List.append_assoc, c1, c2, c3, c4]
+    cases v
+    simp only at hw
+    subst hw
+    rfl
+  · intro bs s h
+    simp only [TxOut.dec] at h
+    have t1 := (asset_lawful P).total
+    have t2 := (value_lawful P).total
+    have t3 := (nonce_lawful P).total
+    have t4 := bytesVec_lawful.total
+    dsplits h
+    all_goals (first | exact t1 _ _ ‹_› | exact t2 _ _ ‹_› | exact t3 _ _ ‹_› | exact t4 _ _ ‹_›)
 
 /-- the encoding of an input does not depend on its witness -/
-theorem txIn_enc_witness (i : TxIn) (w : TxInWitness) : TxIn.enc { i with witness := w } = TxIn.enc i := by sorry
-theorem txOut_enc_witness (o : TxOut) (w : TxOutWitness) : TxOut.enc { o with witness := w } = TxOut.enc o := by sorry
+theorem txIn_enc_witness (i : TxIn) (w : TxInWitness) : TxIn.enc { i with witness := w } = TxIn.enc i := rfl
+theorem txOut_enc_witness (o : TxOut) (w : TxOutWitness) : TxOut.enc { o with witness := w } = TxOut.enc o := rfl
+
 
 /-- sizes of platform structs are positive (needed by the vector guard) -/
 structure SizesPos : Prop where
@@ -42,43 +598,488 @@ structure SizesPos : Prop where
   txOut : 0 < P.sizeTxOut
   tx : 0 < P.sizeTx
 
+/-! ### helpers for the transaction codec -/
+
+/-- clear the witness of an input / output (the same functions as `stripIn` / `stripOut` below) -/
+private def clrIn (i : TxIn) : TxIn := { i with witness := TxInWitness.empty }
+private def clrOut (o : TxOut) : TxOut := { o with witness := TxOutWitness.empty }
+
+theorem decWitnesses_sound {α ω β : Type} (d : Dec ω) (e : ω → Bytes) (wf : ω → Prop)
+    (hl : Lawful d e wf) (set : α → ω → α) (get : α → ω) (f : α → β)
+    (hget : ∀ a w, get (set a w) = w) (hf : ∀ a w, f (set a w) = f a) :
+    ∀ (l : List α) (bs : Bytes) (l' : List α) (rest : Bytes),
+      Tx.decWitnesses d set l bs = .ok (l', rest) →
+      bs = l'.flatMap (fun a => e (get a)) ++ rest ∧ l'.map f = l.map f ∧ ∀ a ∈ l', wf (get a) := by
+  intro l
+  induction l with
+  | nil =>
+    intro bs l' rest h
+    simp only [Tx.decWitnesses] at h
+    cases h
+    simp
+  | cons a as ih =>
+    intro bs l' rest h
+    simp only [Tx.decWitnesses] at h
+    dsplit h with w r1 h1
+    dsplit h with as' r2 h2
+    cases h
+    obtain ⟨e1, w1⟩ := hl.sound _ _ _ h1
+    obtain ⟨e2, m2, w2⟩ := ih _ _ _ h2
+    refine ⟨?_, ?_, ?_⟩
+    · simp only [List.flatMap_cons, hget, List.append_assoc]
+      rw [← e2, ← e1]
+    · simp only [List.map_cons, hf, m2]
+    · intro x hx
+      rcases List.mem_cons.mp hx with rfl | hx
+      · rw [hget]; exact w1
+      · exact w2 x hx
+
+theorem decWitnesses_complete {α ω : Type} (d : Dec ω) (e : ω → Bytes) (wf : ω → Prop)
+    (hl : Lawful d e wf) (set : α → ω → α) (get : α → ω) (f : α → α)
+    (hset : ∀ a, set (f a) (get a) = a) :
+    ∀ (l : List α) (r : Bytes), (∀ a ∈ l, wf (get a)) →
+      Tx.decWitnesses d set (l.map f) (l.flatMap (fun a => e (get a)) ++ r) = .ok (l, r) := by
+  intro l
+  induction l with
+  | nil => intro r _; rfl
+  | cons a as ih =>
+    intro r hw
+    have h1 := hl.complete (get a) (as.flatMap (fun a => e (get a)) ++ r) (hw a List.mem_cons_self)
+    have h2 := ih r (fun v hv => hw v (List.mem_cons_of_mem _ hv))
+    simp only [List.map_cons, List.flatMap_cons, List.append_assoc, Tx.decWitnesses, h1, h2, hset]
+
+theorem decWitnesses_total {α ω : Type} (d : Dec ω) (ht : ∀ bs s, d bs ≠ .panic s) (set : α → ω → α) :
+    ∀ (l : List α) (bs : Bytes) (s : String), Tx.decWitnesses d set l bs ≠ .panic s := by
+  intro l
+  induction l with
+  | nil => intro bs s h; cases h
+  | cons a as ih =>
+    intro bs s h
+    simp only [Tx.decWitnesses] at h
+    dsplits h
+    · exact ih _ _ ‹_›
+    · exact ht _ _ ‹_›
+
+theorem vecOf_total {α : Type} (m : Nat) (d : Dec α) (ht : ∀ bs s, d bs ≠ .panic s) (bs : Bytes)
+    (s : String) : vecOf m d bs ≠ .panic s := by
+  intro h
+  simp only [vecOf] at h
+  dsplits h
+  · exact repeatN_total d ht _ _ _ h
+  · exact varint_lawful.total _ _ ‹_›
+
+theorem txInWitness_isEmpty_iff (w : TxInWitness) : w.isEmpty = true ↔ w = TxInWitness.empty := by
+  obtain ⟨a, b, c, d⟩ := w
+  cases a <;> cases b <;> cases c <;> cases d <;> simp [TxInWitness.isEmpty, TxInWitness.empty]
+
+theorem txOutWitness_isEmpty_iff (w : TxOutWitness) : w.isEmpty = true ↔ w = TxOutWitness.empty := by
+  obtain ⟨a, b⟩ := w
+  cases a <;> cases b <;> simp [TxOutWitness.isEmpty, TxOutWitness.empty]
+
+theorem txInWitness_empty_wf : TxInWitness.empty.wf P := by
+  refine ⟨trivial, trivial, ⟨?_, ?_⟩, ⟨?_, ?_⟩⟩ <;> simp [TxInWitness.empty, maxVecSize]
+
+theorem txOutWitness_empty_wf : TxOutWitness.empty.wf P := ⟨trivial, trivial⟩
+
+theorem hasWitness_eq (t : Tx) :
+    t.hasWitness = !(t.input.all (fun i => i.witness.isEmpty) && t.output.all (fun o => o.witness.isEmpty)) := by
+  simp only [Tx.hasWitness, Bool.not_and, List.not_all_eq_any_not]
+
+theorem hasWitness_false_iff (t : Tx) :
+    t.hasWitness = false ↔
+      (∀ i ∈ t.input, i.witness = TxInWitness.empty) ∧ (∀ o ∈ t.output, o.witness = TxOutWitness.empty) := by
+  simp only [Tx.hasWitness, Bool.or_eq_false_iff, List.any_eq_false, Bool.not_eq_true',
+    Bool.not_eq_false, txInWitness_isEmpty_iff, txOutWitness_isEmpty_iff]
+
+theorem encVec_clrIn (l : List TxIn) : encVec TxIn.enc (l.map clrIn) = encVec TxIn.enc l := by
+  have : ∀ l : List TxIn, (l.map clrIn).flatMap TxIn.enc = l.flatMap TxIn.enc := by
+    intro l
+    induction l with
+    | nil => rfl
+    | cons a as ih => simp only [List.map_cons, List.flatMap_cons, ih]; rfl
+  simp only [encVec, List.length_map, this]
+
+theorem encVec_clrOut (l : List TxOut) : encVec TxOut.enc (l.map clrOut) = encVec TxOut.enc l := by
+  have : ∀ l : List TxOut, (l.map clrOut).flatMap TxOut.enc = l.flatMap TxOut.enc := by
+    intro l
+    induction l with
+    | nil => rfl
+    | cons a as ih => simp only [List.map_cons, List.flatMap_cons, ih]; rfl
+  simp only [encVec, List.length_map, this]
+
+theorem encVec_congr_clrIn {l l' : List TxIn} (h : l'.map clrIn = l.map clrIn) :
+    encVec TxIn.enc l' = encVec TxIn.enc l := by
+  rw [← encVec_clrIn l', ← encVec_clrIn l, h]
+
+theorem encVec_congr_clrOut {l l' : List TxOut} (h : l'.map clrOut = l.map clrOut) :
+    encVec TxOut.enc l' = encVec TxOut.enc l := by
+  rw [← encVec_clrOut l', ← encVec_clrOut l, h]
+
+theorem wfBody_of_map_clrIn {l l' : List TxIn} (h : l'.map clrIn = l.map clrIn)
+    (hw : ∀ i ∈ l, i.wfBody P) : ∀ i ∈ l', i.wfBody P := by
+  intro i hi
+  have : clrIn i ∈ l.map clrIn := by rw [← h]; exact List.mem_map_of_mem hi
+  obtain ⟨j, hj, hji⟩ := List.mem_map.mp this
+  have h1 : (clrIn j).wfBody P := hw j hj
+  rw [hji] at h1
+  exact h1
+
+theorem wfBody_of_map_clrOut {l l' : List TxOut} (h : l'.map clrOut = l.map clrOut)
+    (hw : ∀ i ∈ l, i.wfBody P) : ∀ i ∈ l', i.wfBody P := by
+  intro i hi
+  have : clrOut i ∈ l.map clrOut := by rw [← h]; exact List.mem_map_of_mem hi
+  obtain ⟨j, hj, hji⟩ := List.mem_map.mp this
+  have h1 : (clrOut j).wfBody P := hw j hj
+  rw [hji] at h1
+  exact h1
+
+
 /-- the full transaction codec -/
 theorem tx_sound (hs : SizesPos P) (bs : Bytes) (t : Tx) (rest : Bytes)
-    (h : Tx.dec P bs = .ok (t, rest)) : bs = t.enc ++ rest ∧ t.wf P := by sorry
+    (h : Tx.dec P bs = .ok (t, rest)) : bs = t.enc ++ rest ∧ t.wf P := by
+  simp only [Tx.dec] at h
+  dsplit h with version r1 h1
+  dsplit h with flag r2 h2
+  dsplit h with input r3 h3
+  dsplit h with output r4 h4
+  dsplit h with lockTime r5 h5
+  obtain ⟨e1, l1⟩ := (le_lawful 4).sound _ _ _ h1
+  obtain ⟨e2, l2⟩ := u8_lawful.sound _ _ _ h2
+  obtain ⟨e3, l3, w3⟩ := (vecOf_lawful P.sizeTxIn hs.txIn _ _ _ (txIn_lawful P)).sound _ _ _ h3
+  obtain ⟨e4, l4, w4⟩ := (vecOf_lawful P.sizeTxOut hs.txOut _ _ _ (txOut_lawful P)).sound _ _ _ h4
+  obtain ⟨e5, l5⟩ := (le_lawful 4).sound _ _ _ h5
+  have l1' : version < 2 ^ 32 := by omega
+  have l5' : lockTime < 2 ^ 32 := by omega
+  split at h
+  · rename_i hf
+    cases h
+    subst hf
+    have hnw : Tx.hasWitness ⟨version, lockTime, input, output⟩ = false :=
+      (hasWitness_false_iff _).mpr ⟨fun i hi => (w3 i hi).2, fun o ho => (w4 o ho).2⟩
+    refine ⟨?_, l1', l5', l3, l4, ?_, ?_⟩
+    · simp only [Tx.enc, hnw, Bool.false_eq_true, if_false, Tx.encStripped, List.append_assoc]
+      rw [e1, e2, e3, e4, e5]
+      rfl
+    · intro i hi
+      refine ⟨(w3 i hi).1, ?_⟩
+      rw [(w3 i hi).2]
+      exact txInWitness_empty_wf P
+    · intro o ho
+      refine ⟨(w4 o ho).1, ?_⟩
+      rw [(w4 o ho).2]
+      exact txOutWitness_empty_wf P
+  · dsplit h with hf
+    subst hf
+    dsplit h with input' r6 h6
+    dsplit h with output' r7 h7
+    dsplit h with hne
+    cases h
+    obtain ⟨e6, m6, w6⟩ := decWitnesses_sound _ _ _ (txInWitness_lawful P)
+      (fun (i : TxIn) w => { i with witness := w }) TxIn.witness clrIn (fun _ _ => rfl) (fun _ _ => rfl)
+      _ _ _ _ h6
+    obtain ⟨e7, m7, w7⟩ := decWitnesses_sound _ _ _ (txOutWitness_lawful P)
+      (fun (o : TxOut) w => { o with witness := w }) TxOut.witness clrOut (fun _ _ => rfl) (fun _ _ => rfl)
+      _ _ _ _ h7
+    have hw : Tx.hasWitness ⟨version, lockTime, input', output'⟩ = true := by
+      rw [hasWitness_eq]
+      simp only [Bool.not_eq_true] at hne
+      simp only [hne, Bool.not_false]
+    have hlen6 : input'.length = input.length := by
+      have := congrArg List.length m6
+      simpa using this
+    have hlen7 : output'.length = output.length := by
+      have := congrArg List.length m7
+      simpa using this
+    refine ⟨?_, l1', l5', by simpa only [hlen6] using l3, by simpa only [hlen7] using l4, ?_, ?_⟩
+    · simp only [Tx.enc, hw, if_true, List.append_assoc, encVec_congr_clrIn m6, encVec_congr_clrOut m7]
+      rw [e1, e2, e3, e4, e5, e6, e7]
+      rfl
+    · intro i hi
+      exact ⟨wfBody_of_map_clrIn P m6 (fun j hj => (w3 j hj).1) i hi, w6 i hi⟩
+    · intro o ho
+      exact ⟨wfBody_of_map_clrOut P m7 (fun j hj => (w4 j hj).1) o ho, w7 o ho⟩
+
+theorem u8_zero (r : Bytes) : u8 ([0] ++ r) = .ok (0, r) := rfl
+theorem u8_one (r : Bytes) : u8 ([1] ++ r) = .ok (1, r) := rfl
 
 theorem tx_complete (hs : SizesPos P) (t : Tx) (r : Bytes) (h : t.wf P) :
-    Tx.dec P (t.enc ++ r) = .ok (t, r) := by sorry
+    Tx.dec P (t.enc ++ r) = .ok (t, r) := by
+  obtain ⟨l1, l5, l3, l4, w3, w4⟩ := h
+  have LI := vecOf_lawful P.sizeTxIn hs.txIn _ _ _ (txIn_lawful P)
+  have LO := vecOf_lawful P.sizeTxOut hs.txOut _ _ _ (txOut_lawful P)
+  have c1 := fun rr => (le_lawful 4).complete t.version rr (by omega)
+  have c5 := fun rr => (le_lawful 4).complete t.lockTime rr (by omega)
+  cases hw : t.hasWitness
+  · obtain ⟨hi, ho⟩ := (hasWitness_false_iff t).mp hw
+    have c3 := fun rr => LI.complete t.input rr ⟨l3, fun i h => ⟨(w3 i h).1, hi i h⟩⟩
+    have c4 := fun rr => LO.complete t.output rr ⟨l4, fun o h => ⟨(w4 o h).1, ho o h⟩⟩
+    simp only [Tx.dec, Tx.enc, hw, Bool.false_eq_true, if_false, Tx.encStripped, List.append_assoc,
+      c1, u8_zero, c3, c4, c5, if_true]
+  · have c3 := fun rr => LI.complete (t.input.map clrIn) rr
+      ⟨by simpa only [List.length_map] using l3, fun i h => by
+        obtain ⟨j, hj, rfl⟩ := List.mem_map.mp h
+        exact ⟨(w3 j hj).1, rfl⟩⟩
+    have c4 := fun rr => LO.complete (t.output.map clrOut) rr
+      ⟨by simpa only [List.length_map] using l4, fun o h => by
+        obtain ⟨j, hj, rfl⟩ := List.mem_map.mp h
+        exact ⟨(w4 j hj).1, rfl⟩⟩
+    rw [encVec_clrIn] at c3
+    rw [encVec_clrOut] at c4
+    have c6 := fun rr => decWitnesses_complete _ _ _ (txInWitness_lawful P)
+      (fun (i : TxIn) w => { i with witness := w }) TxIn.witness clrIn (fun _ => rfl) t.input rr
+      (fun i h => (w3 i h).2)
+    have c7 := fun rr => decWitnesses_complete _ _ _ (txOutWitness_lawful P)
+      (fun (o : TxOut) w => { o with witness := w }) TxOut.witness clrOut (fun _ => rfl) t.output rr
+      (fun o h => (w4 o h).2)
+    have hne : (t.input.all (fun i => i.witness.isEmpty) && t.output.all (fun o => o.witness.isEmpty)) = false := by
+      have := hasWitness_eq t
+      rw [hw] at this
+      generalize (t.input.all (fun i => i.witness.isEmpty) && t.output.all (fun o => o.witness.isEmpty)) = x at this
+      cases x
+      · rfl
+      · cases this
+    have d1 : ¬ ((1 : Nat) = 0) := by decide
+    simp only [Tx.dec, Tx.enc, hw, if_true, List.append_assoc,
+      c1, u8_one, c3, c4, c5, c6, c7, if_neg d1, hne, Bool.false_eq_true, if_false]
 
-theorem tx_total (bs : Bytes) (s : String) : Tx.dec P bs ≠ .panic s := by sorry
+theorem tx_total (bs : Bytes) (s : String) : Tx.dec P bs ≠ .panic s := by
+  intro h
+  simp only [Tx.dec] at h
+  have t1 := (le_lawful 4).total
+  have t2 := u8_lawful.total
+  have t3 := vecOf_total P.sizeTxIn _ (txIn_lawful P).total
+  have t4 := vecOf_total P.sizeTxOut _ (txOut_lawful P).total
+  have t6 := decWitnesses_total _ (txInWitness_lawful P).total (fun (i : TxIn) w => { i with witness := w })
+  have t7 := decWitnesses_total _ (txOutWitness_lawful P).total (fun (o : TxOut) w => { o with witness := w })
+  dsplits h
+  all_goals first | exact t1 _ _ ‹_› | exact t2 _ _ ‹_› | exact t3 _ _ ‹_› | exact t4 _ _ ‹_› | exact t6 _ _ _ ‹_› | exact t7 _ _ _ ‹_›
 
 theorem tx_lawful (hs : SizesPos P) : Lawful (Tx.dec P) Tx.enc (Tx.wf P) :=
   ⟨fun bs v rest h => tx_sound P hs bs v rest h, fun v r h => tx_complete P hs v r h, fun bs s => tx_total P bs s⟩
+
 
 /-- strip all witnesses -/
 def stripIn (i : TxIn) : TxIn := { i with witness := TxInWitness.empty }
 def stripOut (o : TxOut) : TxOut := { o with witness := TxOutWitness.empty }
 def stripWit (t : Tx) : Tx := { t with input := t.input.map stripIn, output := t.output.map stripOut }
 
-theorem stripWit_hasWitness (t : Tx) : (stripWit t).hasWitness = false := by sorry
-theorem encStripped_stripWit (t : Tx) : (stripWit t).encStripped = t.encStripped := by sorry
-theorem enc_stripWit (t : Tx) : (stripWit t).enc = t.encStripped := by sorry
-theorem stripWit_wf (t : Tx) (h : t.wf P) : (stripWit t).wf P := by sorry
-theorem stripWit_eq_self_of_no_witness (t : Tx) (h : t.hasWitness = false) : stripWit t = t := by sorry
+private theorem stripIn_eq_clrIn : stripIn = clrIn := rfl
+private theorem stripOut_eq_clrOut : stripOut = clrOut := rfl
+
+theorem stripWit_hasWitness (t : Tx) : (stripWit t).hasWitness = false := by
+  refine (hasWitness_false_iff _).mpr ⟨?_, ?_⟩
+  · intro i hi
+    obtain ⟨j, _, rfl⟩ := List.mem_map.mp hi
+    rfl
+  · intro o ho
+    obtain ⟨j, _, rfl⟩ := List.mem_map.mp ho
+    rfl
+
+theorem encStripped_stripWit (t : Tx) : (stripWit t).encStripped = t.encStripped := by
+  simp only [Tx.encStripped, stripWit, stripIn_eq_clrIn, stripOut_eq_clrOut, encVec_clrIn, encVec_clrOut]
+
+theorem enc_stripWit (t : Tx) : (stripWit t).enc = t.encStripped := by
+  simp only [Tx.enc, stripWit_hasWitness, Bool.false_eq_true, if_false]
+  exact encStripped_stripWit t
+
+theorem stripWit_wf (t : Tx) (h : t.wf P) : (stripWit t).wf P := by
+  obtain ⟨l1, l5, l3, l4, w3, w4⟩ := h
+  refine ⟨l1, l5, ?_, ?_, ?_, ?_⟩
+  · simpa only [stripWit, List.length_map] using l3
+  · simpa only [stripWit, List.length_map] using l4
+  · intro i hi
+    obtain ⟨j, hj, rfl⟩ := List.mem_map.mp hi
+    exact ⟨(w3 j hj).1, txInWitness_empty_wf P⟩
+  · intro o ho
+    obtain ⟨j, hj, rfl⟩ := List.mem_map.mp ho
+    exact ⟨(w4 j hj).1, txOutWitness_empty_wf P⟩
+
+theorem stripWit_eq_self_of_no_witness (t : Tx) (h : t.hasWitness = false) : stripWit t = t := by
+  obtain ⟨hi, ho⟩ := (hasWitness_false_iff t).mp h
+  have e1 : t.input.map stripIn = t.input := by
+    conv => rhs; rw [← List.map_id t.input]
+    apply List.map_congr_left
+    intro i hi'
+    have := hi i hi'
+    cases i
+    simp only at this
+    subst this
+    rfl
+  have e2 : t.output.map stripOut = t.output := by
+    conv => rhs; rw [← List.map_id t.output]
+    apply List.map_congr_left
+    intro o ho'
+    have := ho o ho'
+    cases o
+    simp only at this
+    subst this
+    rfl
+  cases t
+  simp only [stripWit] at e1 e2 ⊢
+  rw [e1, e2]
 
 /-- the witness-stripped serialization determines every non-witness field -/
 theorem encStripped_injective (hs : SizesPos P) (a b : Tx) (ha : a.wf P) (hb : b.wf P)
-    (h : a.encStripped = b.encStripped) : stripWit a = stripWit b := by sorry
+    (h : a.encStripped = b.encStripped) : stripWit a = stripWit b :=
+  enc_injective_of_complete (tx_lawful P hs) (stripWit a) (stripWit b) (stripWit_wf P a ha)
+    (stripWit_wf P b hb) (by rw [enc_stripWit, enc_stripWit, h])
 
 /-- the full serialization determines the transaction -/
 theorem enc_injective (hs : SizesPos P) (a b : Tx) (ha : a.wf P) (hb : b.wf P)
-    (h : a.enc = b.enc) : a = b := by sorry
+    (h : a.enc = b.enc) : a = b :=
+  enc_injective_of_complete (tx_lawful P hs) a b ha hb h
 
 /-- full and stripped serializations differ exactly when a witness is present -/
-theorem enc_eq_encStripped_iff (t : Tx) : t.enc = t.encStripped ↔ t.hasWitness = false := by sorry
+theorem enc_eq_encStripped_iff (t : Tx) : t.enc = t.encStripped ↔ t.hasWitness = false := by
+  constructor
+  · intro h
+    cases hw : t.hasWitness
+    · rfl
+    · exfalso
+      simp only [Tx.enc, hw, if_true, Tx.encStripped, List.append_assoc, encLe] at h
+      have h2 := List.append_cancel_left h
+      simp only [List.cons_append, List.cons.injEq] at h2
+      exact absurd h2.1 (by decide)
+  · intro h
+    simp only [Tx.enc, h, Bool.false_eq_true, if_false]
+
 
 /-! sizes (C12) -/
-theorem size_eq_enc_length (t : Tx) (h : t.wf P) : t.size = t.enc.length := by sorry
 
-theorem weight_eq (t : Tx) (h : t.wf P) : t.weight = 3 * t.encStripped.length + t.enc.length := by sorry
+theorem encOptProof_length (o : Option Bytes) :
+    (encOptProof o).length = varintSize (Tx.optLen o) + Tx.optLen o := by
+  cases o <;> simp only [encOptProof, Tx.optLen, encBytesVec_length, List.length_nil]
+
+theorem encBytesVecVec_length (l : List Bytes) : (encBytesVecVec l).length = Tx.stackSize l := by
+  have : ∀ l : List Bytes, (l.flatMap encBytesVec).length =
+      (l.map (fun w => varintSize w.length + w.length)).sum := by
+    intro l
+    induction l with
+    | nil => rfl
+    | cons a as ih =>
+      simp only [List.flatMap_cons, List.length_append, List.map_cons, List.sum_cons, ih,
+        encBytesVec_length]
+  simp only [encBytesVecVec, encVec, List.length_append, encVarint_length, this, Tx.stackSize]
+
+/-- non-witness bytes of an input as counted by `scaled_size` -/
+private def inBase (i : TxIn) : Nat :=
+  32 + 4 + 4 + varintSize i.scriptSig.length + i.scriptSig.length +
+    (if i.hasIssuance then 64 + i.assetIssuance.amount.encodedLength + i.assetIssuance.inflationKeys.encodedLength else 0)
+
+/-- witness bytes of an input as counted by `scaled_size` -/
+private def inWit (i : TxIn) : Nat :=
+  varintSize (Tx.optLen i.witness.amountRangeproof) + Tx.optLen i.witness.amountRangeproof +
+  varintSize (Tx.optLen i.witness.inflationKeysRangeproof) + Tx.optLen i.witness.inflationKeysRangeproof +
+  Tx.stackSize i.witness.scriptWitness + Tx.stackSize i.witness.peginWitness
+
+private def outBase (o : TxOut) : Nat :=
+  o.asset.encodedLength + o.value.encodedLength + o.nonce.encodedLength +
+    varintSize o.scriptPubkey.length + o.scriptPubkey.length
+
+private def outWit (o : TxOut) : Nat :=
+  varintSize o.witness.surjectionproofLen + o.witness.surjectionproofLen +
+  varintSize o.witness.rangeproofLen + o.witness.rangeproofLen
+
+theorem txIn_enc_length (i : TxIn) (h : i.wfBody P) : (TxIn.enc i).length = inBase i := by
+  obtain ⟨htx, _, _, _, hiss⟩ := h
+  simp only [TxIn.enc, inBase, List.length_append, encLe, leBytes_length, encBytesVec_length, htx]
+  cases hq : i.hasIssuance
+  · simp only [Bool.false_eq_true, if_false, List.length_nil]
+    omega
+  · simp only [hq, if_true] at hiss ⊢
+    obtain ⟨l1, _, l2, w1, w2⟩ := hiss
+    simp only [AssetIssuance.enc, List.length_append, l1, l2, value_enc_length P _ w1,
+      value_enc_length P _ w2]
+    omega
+
+theorem txInWitness_enc_length (i : TxIn) : i.witness.enc.length = inWit i := by
+  simp only [TxInWitness.enc, inWit, List.length_append, encOptProof_length, encBytesVecVec_length]
+  omega
+
+theorem txOut_enc_length (o : TxOut) (h : o.wfBody P) : (TxOut.enc o).length = outBase o := by
+  obtain ⟨w1, w2, w3, _⟩ := h
+  simp only [TxOut.enc, outBase, List.length_append, encBytesVec_length, asset_enc_length P _ w1,
+    value_enc_length P _ w2, nonce_enc_length P _ w3]
+  omega
+
+theorem txOutWitness_enc_length (o : TxOut) : o.witness.enc.length = outWit o := by
+  have h1 : o.witness.surjectionproofLen = Tx.optLen o.witness.surjectionProof := by
+    simp only [TxOutWitness.surjectionproofLen, Tx.optLen]
+  have h2 : o.witness.rangeproofLen = Tx.optLen o.witness.rangeproof := by
+    simp only [TxOutWitness.rangeproofLen, Tx.optLen]
+  simp only [TxOutWitness.enc, outWit, List.length_append, encOptProof_length, h1, h2]
+  omega
+
+theorem inputScaled_eq (k : Nat) (f : Bool) (i : TxIn) :
+    Tx.inputScaled k f i = k * inBase i + (if f then inWit i else 0) := rfl
+
+theorem outputScaled_eq (k : Nat) (f : Bool) (o : TxOut) :
+    Tx.outputScaled k f o = k * outBase o + (if f then outWit o else 0) := rfl
+
+theorem sum_inputScaled (k : Nat) (f : Bool) (l : List TxIn) (h : ∀ i ∈ l, i.wfBody P) :
+    (l.map (Tx.inputScaled k f)).sum =
+      k * (l.flatMap TxIn.enc).length + (if f then (l.flatMap (fun i => i.witness.enc)).length else 0) := by
+  induction l with
+  | nil => simp
+  | cons a as ih =>
+    have ih' := ih (fun i hi => h i (List.mem_cons_of_mem _ hi))
+    have ha := txIn_enc_length P a (h a List.mem_cons_self)
+    simp only [List.map_cons, List.sum_cons, List.flatMap_cons, List.length_append, ih', ha,
+      inputScaled_eq, txInWitness_enc_length, Nat.mul_add]
+    cases f
+    · simp only [Bool.false_eq_true, if_false]; omega
+    · simp only [if_true]; omega
+
+theorem sum_outputScaled (k : Nat) (f : Bool) (l : List TxOut) (h : ∀ o ∈ l, o.wfBody P) :
+    (l.map (Tx.outputScaled k f)).sum =
+      k * (l.flatMap TxOut.enc).length + (if f then (l.flatMap (fun o => o.witness.enc)).length else 0) := by
+  induction l with
+  | nil => simp
+  | cons a as ih =>
+    have ih' := ih (fun i hi => h i (List.mem_cons_of_mem _ hi))
+    have ha := txOut_enc_length P a (h a List.mem_cons_self)
+    simp only [List.map_cons, List.sum_cons, List.flatMap_cons, List.length_append, ih', ha,
+      outputScaled_eq, txOutWitness_enc_length, Nat.mul_add]
+    cases f
+    · simp only [Bool.false_eq_true, if_false]; omega
+    · simp only [if_true]; omega
+
+theorem encStripped_length (t : Tx) :
+    t.encStripped.length = 4 + 1 + (varintSize t.input.length + (t.input.flatMap TxIn.enc).length) +
+      (varintSize t.output.length + (t.output.flatMap TxOut.enc).length) + 4 := by
+  simp only [Tx.encStripped, encVec, List.length_append, encLe, leBytes_length, encVarint_length,
+    List.length_cons, List.length_nil]
+
+theorem tx_enc_length (t : Tx) :
+    t.enc.length = t.encStripped.length +
+      (if t.hasWitness then (t.input.flatMap (fun i => i.witness.enc)).length +
+        (t.output.flatMap (fun o => o.witness.enc)).length else 0) := by
+  cases hw : t.hasWitness
+  · simp only [Tx.enc, hw, Bool.false_eq_true, if_false, Nat.add_zero]
+  · simp only [Tx.enc, hw, if_true, Tx.encStripped, List.length_append, List.length_cons,
+      List.length_nil]
+    omega
+
+/-- `scaled_size` counts the stripped bytes `k` times and the witness bytes once -/
+theorem scaledSize_eq (t : Tx) (h : t.wf P) (k : Nat) :
+    t.scaledSize k + t.encStripped.length = k * t.encStripped.length + t.enc.length := by
+  obtain ⟨_, _, _, _, w3, w4⟩ := h
+  have h1 := sum_inputScaled P k t.hasWitness t.input (fun i hi => (w3 i hi).1)
+  have h2 := sum_outputScaled P k t.hasWitness t.output (fun o ho => (w4 o ho).1)
+  rw [tx_enc_length t, encStripped_length t]
+  simp only [Tx.scaledSize, h1, h2, Nat.mul_add]
+  cases t.hasWitness
+  · simp only [Bool.false_eq_true, if_false]; omega
+  · simp only [if_true]; omega
+
+theorem size_eq_enc_length (t : Tx) (h : t.wf P) : t.size = t.enc.length := by
+  have := scaledSize_eq P t h 1
+  simp only [Tx.size]
+  omega
+
+theorem weight_eq (t : Tx) (h : t.wf P) : t.weight = 3 * t.encStripped.length + t.enc.length := by
+  have := scaledSize_eq P t h 4
+  simp only [Tx.weight]
+  omega
 
 end EV.Proofs.CodecTx
